@@ -257,7 +257,9 @@ HookEntry(inp, id, pm) == LET c == DocAt(inp, id).c IN
 DepsAfterProcess(inp, loadOrder) ==
   CASE inp.decl = "fwd" -> inp.subs [] inp.decl = "rev" -> Reverse(inp.subs) [] OTHER -> loadOrder
 
-\* Chart.CRDObjects: own crds/ files first, then those of the dependencies in Dependencies() order
+\* Chart.CRDObjects: own crds/ files first, then those of the dependencies in Dependencies() order.  The output lists
+\* CHARTS; WITHIN a chart the files under crds/ come in the order the chart's files were loaded (archive / directory /
+\* caller order: known finding KF-L30), which this model does not fix -- RenderObs recognises exactly that shape
 CrdOrder(inp, deps) == (IF "p" \in Range(inp.crds) THEN <<"p">> ELSE <<>>) \o SelectSeq(deps, LAMBDA c : c \in Range(inp.crds))
 
 (* ----- reference semantics: the output as a FUNCTION of the input ---------- *)
